@@ -57,7 +57,10 @@ TgtT(fk) == CASE fk \in {"i2i", "mth"} -> INT [] fk = "i2s" -> STR
               [] fk \in {"valB", "p2vB"} -> N("B2")
 FieldNames == <<"F", "G">>
 Shapes(self) == {<<a>> : a \in FieldKinds(self)} \cup {<<a, b>> : a \in FieldKinds(self), b \in FieldKinds(self)}
+\* H{F *B} -> H2{F *B2}: the struct pair of a further declared method Tail(source H) H2 *without* error result and context
+\* (programs with declH): it reaches the conversions of B through lookups of helpers that other methods created
 FieldsOf(shape, id) ==
+  IF id \in {"H", "H2"} THEN <<[n |-> "F", t |-> P(N(IF id = "H" THEN "B" ELSE "B2"))]>> ELSE
   LET base == IF id \in {"A", "A2"} THEN shape.A ELSE shape.B
       tgt == id \in {"A2", "B2"}
   IN [i \in DOMAIN base |-> [n |-> FieldNames[i], t |-> IF tgt THEN TgtT(base[i]) ELSE SrcT(base[i])]]
@@ -198,7 +201,7 @@ BuildTop(prog, st, m, avail) ==
    reaches them.  Names: the declared Conv, ConvB, ConvL; generated <source id>To<Target id> with the package name in the id --
    p12AToP12A2 < p12BToP12B2 < p12LPToIntList < p12NIToString < pP12AToPP12A2 < pP12BToP12B2 < pP12BToPP12B2.                       *)
 Rank(mr) ==
-  IF mr.explicit THEN (IF mr.src = N("A") THEN 0 ELSE IF mr.src = N("B") THEN 1 ELSE 2)
+  IF mr.explicit THEN (IF mr.src = N("A") THEN 0 ELSE IF mr.src = N("B") THEN 1 ELSE IF mr.src = N("H") THEN 3 ELSE 2)
   ELSE CASE mr.src = N("A") -> 10 [] mr.src = N("B") -> 11
          [] mr.src.k = "nn" /\ mr.src.id = "LP" -> 12 [] mr.src.k = "nn" -> 13
          [] mr.src = P(N("A")) -> 14
@@ -227,10 +230,12 @@ Generate(prog, st, fuel) ==
 \* declB: a second declared method ConvB(source B) B2 ("plain") or ConvB(source B, ctx Ctx) B2 ("ctx") -- it must be used
 \* wherever B -> B2 occurs, and generation must fail where its context is not available
 DeclB(prog) == prog.declB
+DeclH(prog) == "declH" \in DOMAIN prog /\ prog.declH
 Init0(prog) == [fail |-> "", ms |-> <<WithZero(NewMethod(RootSrc, RootTgt, TRUE, prog.rootErr, prog.rootCtx, <<>>, prog.rootCtx), ZeroConv(prog))>>
                                       \o (IF DeclB(prog) = "none" THEN <<>>
                                           ELSE <<WithZero(NewMethod(N("B"), N("B2"), TRUE, prog.rootErr, DeclB(prog) = "ctx", <<>>, DeclB(prog) = "ctx"), ZeroConv(prog))>>)
-                                      \o (IF prog.declL THEN <<WithZero(NewMethod(S(P(INT)), S(INT), TRUE, prog.rootErr, FALSE, <<>>, FALSE), TRUE)>> ELSE <<>>)]
+                                      \o (IF prog.declL THEN <<WithZero(NewMethod(S(P(INT)), S(INT), TRUE, prog.rootErr, FALSE, <<>>, FALSE), TRUE)>> ELSE <<>>)
+                                      \o (IF DeclH(prog) THEN <<WithZero(NewMethod(N("H"), N("H2"), TRUE, FALSE, FALSE, <<>>, FALSE), ZeroConv(prog))>> ELSE <<>>)]
 Gen(prog) == Generate(prog, Init0(prog), 12)
 
 \* ---------------------------------------------------------------- invariants on the result (WellFormed, C01)
@@ -290,5 +295,9 @@ ShapesUnder == {<<a>> : a \in UnderKinds} \cup {<<a, b>> : a \in UnderKinds, b \
 ProgsUnder == { [shape |-> [A |-> a, B |-> <<"i2i">>], rootErr |-> eb[1], extErr |-> eb[2], rootCtx |-> FALSE, extCtx |-> FALSE, extId |-> FALSE, wrap |-> w,
                  declB |-> "none", under |-> u, declL |-> dl] :
                  a \in ShapesUnder, eb \in {<<TRUE, TRUE>>, <<FALSE, FALSE>>, <<TRUE, FALSE>>}, w \in {"none", "using"}, u \in BOOLEAN, dl \in BOOLEAN }
-ProgsR == ProgsUnder \cup ProgsDecl \cup {p \in Progs : Reaches(p.shape.A) \/ p.shape.B = <<"i2i">>} \cup {p \in ProgsMore : Reaches2(p.shape.A) \/ p.shape.B = <<"i2i">>}
+\* fifth program set: the further declared method Tail
+ProgsTail == { [shape |-> [A |-> a, B |-> b], rootErr |-> re, extErr |-> xe, rootCtx |-> FALSE, extCtx |-> FALSE, extId |-> FALSE, wrap |-> "none",
+                declB |-> "none", under |-> FALSE, declL |-> FALSE, declH |-> TRUE] :
+                a \in {<<"valB">>, <<"ptrB">>, <<"slcB", "i2s">>, <<"i2i">>}, b \in Shapes("B"), re \in BOOLEAN, xe \in BOOLEAN }
+ProgsR == ProgsTail \cup ProgsUnder \cup ProgsDecl \cup {p \in Progs : Reaches(p.shape.A) \/ p.shape.B = <<"i2i">>} \cup {p \in ProgsMore : Reaches2(p.shape.A) \/ p.shape.B = <<"i2i">>}
 =============================================================================
